@@ -205,7 +205,7 @@ def run(ctx):
     ]
     vlib.build()
     quick = ctx.quick()
-    g = vlib.tlc("MCValues", "MCValues.cfg", workers=8, timeout=900)
+    g = vlib.tlc("MCValues", "MCValues.cfg" if quick else "MCValues_thorough.cfg", workers=8, timeout=1800)
     ctx.add_tlc(g, "MCValues (invariance of the definitions + case generation)")
     if g.violation:
         ctx.violation("model:" + g.violation, "Values.tla violates %s" % g.violation, {"tlc": vlib.counterexample(g)})
